@@ -95,6 +95,13 @@ pub fn value_sets(f: &FieldSpec, which: &str, cfg: &SweepCfg) -> Vec<u128> {
                 core4(f.w)
             }
         }
+        "core2" => {
+            if f.discs.is_some() && (f.kind == "e" || f.kind == "o") {
+                value_alpha(f, 0)
+            } else {
+                dedup_keep_order(vec![0, mask(f.w)])
+            }
+        }
         _ => value_alpha(f, 0),
     }
 }
